@@ -225,6 +225,34 @@ func (m *Model) IncludeVar(in *Inst) (string, bool) {
 	return "", false
 }
 
+// FileShVar is the value of DV_<file> (a global "sh: pwd" variable of the
+// defining file) the instance must see: the directory given by ITS include.
+// Judged only in the plainest situation: the include of the defining file is in
+// the long form with dir, every outer include is in the short form and every
+// including file is in the project root. (Two instances of one file under two
+// includes with different dir are copies; neither may see the other's dir.)
+func (m *Model) FileShVar(in *Inst) (string, bool) {
+	n := len(in.Chain)
+	if n == 0 {
+		return "", false
+	}
+	for _, f := range in.From {
+		if !m.T.Files[f].InRoot {
+			return "", false
+		}
+	}
+	for _, e := range in.Chain[:n-1] {
+		if e.Mapping {
+			return "", false
+		}
+	}
+	e := in.Chain[n-1]
+	if !e.Mapping || e.Dir == "" {
+		return "", false
+	}
+	return filepath.Join(m.Root, e.Dir), true
+}
+
 // Line is one expected probe line.
 type Line struct {
 	Origin   string
@@ -232,6 +260,7 @@ type Line struct {
 	PWD      string // "*" = unconstrained
 	FV       string
 	IV       string // "*" = unconstrained
+	DV       string // value of the file's own dynamic variable DV_<file> (sh: pwd); "*" = unconstrained
 	Via      string // self | dep | call | dep:root | call:root | call:child
 	RefDepth int    // include depth of the referring instance
 	RefChain string // depth class and flatten pattern of the referring instance's include chain
@@ -240,7 +269,7 @@ type Line struct {
 }
 
 func (l Line) String() string {
-	return fmt.Sprintf("ORIGIN=%s TASK=%s PWD=%s FV=%s IV=%s", l.Origin, l.Task, l.PWD, l.FV, l.IV)
+	return fmt.Sprintf("ORIGIN=%s TASK=%s PWD=%s FV=%s IV=%s DV=%s", l.Origin, l.Task, l.PWD, l.FV, l.IV, l.DV)
 }
 
 // ChainTag classifies an include chain: depth 0, 1 or 2+, and where flatten occurs
@@ -268,12 +297,15 @@ func (in *Inst) ChainTag() string {
 
 func (m *Model) line(in *Inst, via string, ref *Inst) Line {
 	id := m.T.Files[in.File].ID
-	l := Line{Origin: id + "#" + in.T.Name, Task: in.Name, PWD: "*", FV: "fv-" + id, IV: "*", Via: via, RefDepth: len(ref.Chain), RefChain: ref.ChainTag(), Depth: len(in.Chain)}
+	l := Line{Origin: id + "#" + in.T.Name, Task: in.Name, PWD: "*", FV: "fv-" + id, IV: "*", DV: "*", Via: via, RefDepth: len(ref.Chain), RefChain: ref.ChainTag(), Depth: len(in.Chain)}
 	if w, ok := m.WorkDir(in); ok {
 		l.PWD = w
 	}
 	if v, ok := m.IncludeVar(in); ok {
 		l.IV = v
+	}
+	if v, ok := m.FileShVar(in); ok {
+		l.DV = v
 	}
 	for _, e := range in.Chain {
 		if e.Flatten {
